@@ -183,10 +183,20 @@ func c14ObserveExport(f string, cfg c14Cfg, fields []string, chunks []*rag.Chunk
 	return c14Parse(f, cfg, cols, data)
 }
 
-func c14RandPred(rnd *rand.Rand) c14Pred {
+// chars: the segment's texts are over the one-character case alphabet (keywords then are too, so that
+// substring search on the rendered text is containment of token sequences); otherwise over the words
+func c14RandPred(rnd *rand.Rand, chars bool) c14Pred {
 	p := c14Pred{S: []string{}, Set: []int{}}
 	words := [][]string{{"w1"}, {"W1"}, {"w2"}, {"w1", "w2"}, {"COMMA"}, {"w3"}, {}, {"LF", "w1"}}
-	switch rnd.Intn(11) {
+	if chars {
+		words = [][]string{{}, {"i"}, {"I1"}, {"k"}, {"KS"}, {"K", "a"}, {"sg"}, {"sf"}, {"SG"}, {"s"}, {"ls"}, {"SS"}, {"ss"}, {"as"}, {"AS", "d7"},
+			{"E1"}, {"e1", "e1"}, {"a", "A"}, {"EMOJI"}, {"NUL"}, {"d7"}, {"S", "sg"}, {"i", "I1"}}
+	}
+	kind := rnd.Intn(11)
+	if chars && rnd.Intn(2) == 0 {
+		kind = 9 // the case alphabet is there for Search: half of the predicates of such a segment
+	}
+	switch kind {
 	case 0:
 		p.K, p.S = "section", words[rnd.Intn(len(words))]
 	case 1:
@@ -219,8 +229,14 @@ func c14RandPred(rnd *rand.Rand) c14Pred {
 
 // searchable texts: words only plus separators that no word contains, so that
 // substring search on the rendered text is containment of token sequences
-func c14FilterText(rnd *rand.Rand) []string {
+func c14FilterText(rnd *rand.Rand, chars bool) []string {
 	alpha := []string{"w1", "w2", "w3", "W1", "W2", "COMMA", "LF"}
+	if chars {
+		// characters whose case pairs differ in kind (length-changing, fold-only, no case); weighted
+		// towards the letters the keywords use so that near-matches are frequent
+		alpha = []string{"i", "I1", "i", "I1", "k", "K", "KS", "KS", "s", "S", "ls", "ls", "sg", "SG", "sf", "sf",
+			"a", "A", "e1", "E1", "AS", "as", "SS", "ss", "d7", "EMOJI", "NUL"}
+	}
 	t := []string{}
 	for n := rnd.Intn(6); n > 0; n-- {
 		t = append(t, alpha[rnd.Intn(len(alpha))])
@@ -243,6 +259,7 @@ func c14Record(in, out string) error {
 		evals := 0
 		for s := 0; s < q.N; s++ {
 			cs := c14RandChunks(rnd, q.Max)
+			chars := rnd.Intn(2) == 0
 			mode := []string{"export", "export", "batch", "stream", "filter"}[rnd.Intn(5)]
 			f := "none"
 			cfg := c14Cfg{Text: true, Meta: true, Fields: "all", Header: true, Idcol: "chunk_id", Emb: true}
@@ -263,22 +280,22 @@ func c14Record(in, out string) error {
 				size = 1
 			case "filter":
 				for n := range cs {
-					cs[n].Text = c14FilterText(rnd)
+					cs[n].Text = c14FilterText(rnd, chars)
 					cs[n].Section = [][]string{{}, {"w1"}, {"w2"}, {"w3"}}[rnd.Intn(4)]
 					cs[n].Path = [][][]string{{}, {{"w1"}}, {{"w1"}, {"w2"}}, {{"w3"}}}[rnd.Intn(4)]
 				}
 				for n := 1 + rnd.Intn(3); n > 0; n-- {
-					preds = append(preds, c14RandPred(rnd))
+					preds = append(preds, c14RandPred(rnd, chars))
 				}
 			}
 			fields := c14FieldLists[cfg.Fields]
 			if mode != "filter" && rnd.Intn(4) == 0 {
 				// export what a filter chain selects from the collection
 				for n := range cs {
-					cs[n].Text = c14FilterText(rnd)
+					cs[n].Text = c14FilterText(rnd, chars)
 				}
 				for n := 1 + rnd.Intn(2); n > 0; n-- {
-					preds = append(preds, c14RandPred(rnd))
+					preds = append(preds, c14RandPred(rnd, chars))
 				}
 			}
 			events = append(events, Event{"event": "Begin", "mode": mode, "chunks": cs, "fmt": f, "cfg": cfg, "size": size, "preds": preds})
